@@ -11,6 +11,7 @@ import Mathlib.Data.List.Dedup
 import Mathlib.Data.List.Perm.Basic
 import Mathlib.Data.List.Induction
 import Mathlib.Logic.Relation
+import Mathlib.Data.List.Range
 
 open List
 
@@ -222,3 +223,47 @@ theorem count_flatMap_singleton_of_pointwise {β : Type*} [DecidableEq β] (s t 
   simpa using h l
 
 end PyVC
+
+/-! ### index facts used by the C15 invariants (contracts/output.py, marked [L]) -/
+
+theorem idx_unique_of_count_le_one {α : Type} [DecidableEq α] :
+    ∀ (l : List α) (x : α) (a b : Nat), l.count x ≤ 1 → (ha : a < l.length) → (hb : b < l.length) →
+      l[a] = x → l[b] = x → a = b := by
+  intro l
+  induction l with
+  | nil => intro x a b _ ha; simp at ha
+  | cons y t ih =>
+    intro x a b h ha hb h1 h2
+    rw [List.count_cons] at h
+    cases a with
+    | zero =>
+      cases b with
+      | zero => rfl
+      | succ b' =>
+        simp at h1 h2
+        have hb' : b' < t.length := by simpa using hb
+        have : 0 < t.count x := List.count_pos_iff.mpr (by rw [← h2]; exact List.getElem_mem hb')
+        subst h1
+        simp at h
+        omega
+    | succ a' =>
+      cases b with
+      | zero =>
+        simp at h1 h2
+        have ha' : a' < t.length := by simpa using ha
+        have : 0 < t.count x := List.count_pos_iff.mpr (by rw [← h1]; exact List.getElem_mem ha')
+        subst h2
+        simp at h
+        omega
+      | succ b' =>
+        simp at h1 h2
+        have ha' : a' < t.length := by simpa using ha
+        have hb' : b' < t.length := by simpa using hb
+        have hc : t.count x ≤ 1 := by
+          have := h
+          split at this <;> omega
+        have := ih x a' b' hc ha' hb' h1 h2
+        omega
+
+theorem mem_range_succ_iff (k i : Nat) : i ∈ List.range (k + 1) ↔ i ∈ List.range k ∨ i = k := by
+  simp [List.mem_range]; omega
